@@ -42,7 +42,13 @@ const Statement * DOStatement::doit(Context& ctx) const
 void DOStatement::unparse(Context& ctx, FILE * out) const
 {
   if (_exp != nullptr)
+  {
+    /* the keyword is optional only in front of a name: a saved statement
+     * such as "abc".count() or (1 + 2) is rejected without it */
+    fputs(Statement::KEYWORDS[keyword()], out);
+    fputc(' ', out);
     fputs(_exp->unparse(ctx).c_str(), out);
+  }
 }
 
 DOStatement * DOStatement::parse(Parser& p, Context& ctx)
